@@ -543,9 +543,31 @@ class StmtMixin:
         if self.contract is None:
             return None
         h = self.loop_header(node)
-        for src in (self.contract.loops, getattr(self, "extra_loops", {})):
-            if h in src:
-                return src[h]
+        specs = dict(getattr(self, "extra_loops", {}))
+        specs.update(self.contract.loops)
+        if h in specs:
+            return specs[h]
+        # the header text changed (refactoring or a defect in the bound itself): fall back to the loop's shape so that
+        # the invariants still apply — same kind and, for `for`, same target; for `while`, same variables in the test
+        if isinstance(node, ast.For):
+            tgt = ast.unparse(node.target)
+            cands = [k for k in specs if k.startswith(f"for {tgt} in ")]
+        else:
+            names = {n.id for n in ast.walk(node.test) if isinstance(n, ast.Name)} | \
+                    {n.attr for n in ast.walk(node.test) if isinstance(n, ast.Attribute)}
+            cands = []
+            for k in specs:
+                if k.startswith("while "):
+                    try:
+                        kn = ast.parse(k[6:], mode="eval")
+                    except SyntaxError:
+                        continue
+                    knames = {n.id for n in ast.walk(kn) if isinstance(n, ast.Name)} | \
+                             {n.attr for n in ast.walk(kn) if isinstance(n, ast.Attribute)}
+                    if knames == names:
+                        cands.append(k)
+        if len(cands) == 1:
+            return specs[cands[0]]
         return None
 
     def cut_loop(self, node, frame, spec):
